@@ -344,29 +344,75 @@ pub fn check_failure(spec: &AppSpec, k: usize, route: &RouteInfo, plan: &[(Strin
     if e.iter().filter(|x| x.kind == "enter" && x.comp == comp_name(k, route.handler)).count() > 1 {
         return Err(("handler-ran-twice".into(), format!("{}: the handler was entered more than once", ctx())));
     }
-    // 2. the designated error handler, exactly once, on that error
+    // A component that is invoked several times under this plan (a transient constructor injected
+    // at several sites, a post-processor that also runs on the error response, ...) fails each
+    // time: every failure is an error of its own. Clauses 2-4 are checked per failure.
+    let fail_positions: Vec<usize> = e.iter().enumerate().filter(|(_, x)| x.kind == "exit" && x.v["o"] == "err").map(|(i, _)| i).collect();
+    let is_eh = |name: &str| spec.comps.iter().enumerate().any(|(i, c)| matches!(c.kind, CompKind::ErrHandler { .. }) && comp_name(k, i) == name);
+    let is_obs = |name: &str| spec.comps.iter().enumerate().any(|(i, c)| c.kind == CompKind::Observer && comp_name(k, i) == name);
+    let is_post = |name: &str| spec.comps.iter().enumerate().any(|(i, c)| c.kind == CompKind::Post && comp_name(k, i) == name);
     let want_eh = model::resolve_err_handler(spec, &[], err_ty);
-    let eh_enters: Vec<(usize, &str)> = after
-        .iter()
-        .enumerate()
-        .filter(|(_, x)| x.kind == "enter" && spec.comps.iter().enumerate().any(|(i, c)| matches!(c.kind, CompKind::ErrHandler { .. }) && comp_name(k, i) == x.comp))
-        .map(|(i, x)| (i, x.comp))
-        .collect();
+    let want_obs: Vec<String> = route.observers.iter().map(|o| comp_name(k, *o)).collect();
+    for (n, fp) in fail_positions.iter().enumerate() {
+        let seg_end = fail_positions.get(n + 1).copied().unwrap_or(e.len());
+        let seg = &e[fp + 1..seg_end];
+        if e[*fp].comp != failed {
+            // a different component failed later on (not planned): outside this plan
+            return Err(("unplanned-failure".into(), format!("{}: {} failed although only {failed} was planned to", ctx(), e[*fp].comp)));
+        }
+        // 2. the designated error handler, exactly once, on that very error
+        let eh_enters: Vec<(usize, &str)> = seg.iter().enumerate().filter(|(_, x)| x.kind == "enter" && is_eh(x.comp)).map(|(i, x)| (i, x.comp)).collect();
+        let mut eh_exit = 0usize;
+        match want_eh {
+            Some(h) => {
+                let want = comp_name(k, h);
+                if eh_enters.len() != 1 || eh_enters[0].1 != want {
+                    return Err((
+                        "wrong-error-handler".into(),
+                        format!("{}: failure #{n} of {failed} (error type E{err_ty}); expected exactly one invocation of {want}, observed {:?}", ctx(), eh_enters.iter().map(|x| x.1).collect::<Vec<_>>()),
+                    ));
+                }
+                let err_note = seg.iter().find(|x| x.kind == "note" && x.comp == want && x.v["k"] == "error").map(|x| x.v["v"].as_str().unwrap_or("").to_string());
+                if !err_note.as_deref().is_some_and(|s| s.starts_with(&format!("m{k}::E{err_ty}#"))) {
+                    return Err(("error-handler-saw-other-error".into(), format!("{}: {want} was invoked on {err_note:?}, expected an m{k}::E{err_ty}", ctx())));
+                }
+                eh_exit = seg.iter().position(|x| x.kind == "exit" && x.comp == want).unwrap_or(0);
+            }
+            None => {
+                labels.push("no-specific-handler(fallback)".to_string());
+            }
+        }
+        // 3. every observer registered before the route: exactly once, in order, after the error handler
+        let obs_seen: Vec<(usize, String)> = seg.iter().enumerate().filter(|(_, x)| x.kind == "enter" && is_obs(x.comp)).map(|(i, x)| (i, x.comp.to_string())).collect();
+        let got_obs: Vec<String> = obs_seen.iter().map(|(_, c)| c.clone()).collect();
+        if got_obs != want_obs {
+            return Err((
+                "observers".into(),
+                format!("{}: failure #{n} of {failed}: error observers registered before the route are {want_obs:?} (in this order); observed invocations: {got_obs:?}", ctx()),
+            ));
+        }
+        if let Some((pos, name)) = obs_seen.first() {
+            if want_eh.is_some() && *pos < eh_exit {
+                return Err(("observer-before-handler".into(), format!("{}: observer {name} ran before the error handler had finished", ctx())));
+            }
+        }
+        if let Some((last_obs, _)) = obs_seen.last() {
+            if seg[..*last_obs].iter().any(|x| x.kind == "enter" && is_post(x.comp)) {
+                return Err(("post-before-observers".into(), format!("{}: a post-processing middleware started before all observers had run", ctx())));
+            }
+        }
+    }
+    if fail_positions.len() > 1 {
+        labels.push("several-failures-in-one-request".to_string());
+    }
+    // observers never run outside a failure
+    if e[..fail_pos].iter().any(|x| x.kind == "enter" && is_obs(x.comp)) {
+        return Err(("observer-without-error".into(), format!("{}: an error observer ran before anything had failed", ctx())));
+    }
+    // 4. the client sees the (last) error handler's response
     match want_eh {
         Some(h) => {
             let want = comp_name(k, h);
-            if eh_enters.len() != 1 || eh_enters[0].1 != want {
-                return Err((
-                    "wrong-error-handler".into(),
-                    format!("{}: {failed} failed with E{err_ty}; expected exactly one invocation of {want}, observed {:?}", ctx(), eh_enters.iter().map(|x| x.1).collect::<Vec<_>>()),
-                ));
-            }
-            // and it saw that very error
-            let err_note = after.iter().find(|x| x.kind == "note" && x.comp == want && x.v["k"] == "error").map(|x| x.v["v"].as_str().unwrap_or("").to_string());
-            if !err_note.as_deref().is_some_and(|n| n.starts_with(&format!("m{k}::E{err_ty}#"))) {
-                return Err(("error-handler-saw-other-error".into(), format!("{}: {want} was invoked on {err_note:?}, expected an m{k}::E{err_ty}", ctx())));
-            }
-            // 4. the client sees the error handler's response
             let status = 430 + (err_ty as u64 % 20);
             if resp["status"].as_u64() != Some(status) || resp["body"].as_str() != Some(format!("eh:{want}").as_str()) {
                 return Err((
@@ -376,43 +422,9 @@ pub fn check_failure(spec: &AppSpec, k: usize, route: &RouteInfo, plan: &[(Strin
             }
         }
         None => {
-            labels.push("no-specific-handler(fallback)".to_string());
             if resp["status"].as_u64() != Some(500) {
                 return Err(("fallback-not-500".into(), format!("{}: no error handler for E{err_ty}: expected the built-in 500, got {}", ctx(), resp["status"])));
             }
-        }
-    }
-    // 3. every observer registered before the route: exactly once, in order, after the error handler
-    let eh_exit = after
-        .iter()
-        .position(|x| x.kind == "exit" && eh_enters.first().is_some_and(|h| h.1 == x.comp))
-        .unwrap_or(0);
-    let obs_seen: Vec<(usize, String)> = e
-        .iter()
-        .enumerate()
-        .filter(|(_, x)| x.kind == "enter" && spec.comps.iter().enumerate().any(|(i, c)| c.kind == CompKind::Observer && comp_name(k, i) == x.comp))
-        .map(|(i, x)| (i, x.comp.to_string()))
-        .collect();
-    let want_obs: Vec<String> = route.observers.iter().map(|o| comp_name(k, *o)).collect();
-    let got_obs: Vec<String> = obs_seen.iter().map(|(_, c)| c.clone()).collect();
-    if got_obs != want_obs {
-        return Err((
-            "observers".into(),
-            format!("{}: error observers registered before the route are {want_obs:?} (in this order); observed invocations: {got_obs:?}", ctx()),
-        ));
-    }
-    if let Some((pos, name)) = obs_seen.first() {
-        if want_eh.is_some() && *pos < fail_pos + 1 + eh_exit {
-            return Err(("observer-before-handler".into(), format!("{}: observer {name} ran before the error handler had finished", ctx())));
-        }
-    }
-    // post-processors after the failure must not start before the observers are done
-    if let Some((last_obs, _)) = obs_seen.last() {
-        let post_before = e[fail_pos..*last_obs]
-            .iter()
-            .any(|x| x.kind == "enter" && spec.comps.iter().enumerate().any(|(i, c)| c.kind == CompKind::Post && comp_name(k, i) == x.comp));
-        if post_before {
-            return Err(("post-before-observers".into(), format!("{}: a post-processing middleware started before all observers had run", ctx())));
         }
     }
     if want_obs.len() >= 2 {
